@@ -513,6 +513,52 @@ func QueryRow(query string, args []any) ([]Val, bool, error) {
 	return nil, false, nil
 }
 
+// Query runs "SELECT cols FROM queue_items [WHERE ...] [LIMIT n]" and returns every matching row in table order.
+func Query(query string, args []any) ([][]Val, error) {
+	db := Current
+	vals, err := toVals(args)
+	if err != nil {
+		return nil, err
+	}
+	p := &parser{t: lex(query)}
+	if !p.kw("select") {
+		return nil, errors.New("verifsql: unsupported query")
+	}
+	var cols []int
+	for {
+		c := p.next()
+		if c.k != "id" || colIndex(c.s) < 0 {
+			return nil, errors.New("verifsql: bad column")
+		}
+		cols = append(cols, colIndex(c.s))
+		if !p.punct(",") {
+			break
+		}
+	}
+	if !p.kw("from") || !p.kw("queue_items") {
+		return nil, errors.New("verifsql: unsupported FROM")
+	}
+	var where *expr
+	if p.kw("where") {
+		where = p.parseOr()
+	}
+	p.punct(";")
+	if p.err != nil || p.peek().k != "eof" {
+		return nil, errors.New("verifsql: unsupported SELECT tail")
+	}
+	var out [][]Val
+	for _, r := range db.Rows {
+		if where == nil || truth(where.eval(r, vals)) {
+			row := make([]Val, len(cols))
+			for i, c := range cols {
+				row[i] = r.V[c]
+			}
+			out = append(out, row)
+		}
+	}
+	return out, nil
+}
+
 // ScanInto assigns SQL values to database/sql scan destinations.
 func ScanInto(dest []any, vals []Val) error {
 	if len(dest) != len(vals) {
